@@ -197,7 +197,7 @@ func (g *c17x) body(d int, bad int) engine.Term {
 		case k < 14:
 			return compound("phrase", g.body(d-1, bad))
 		case k < 15:
-			return engine.CharList(pick(g.r, []string{"xy", "z", "xyz", "yx"}))
+			return engine.CharList(pick(g.r, []string{"xy", "z", "xyz", "yx", "xé", "éx", "yéx", "日本x"}))
 		default:
 			return compound("call", atom("foo"), g.arg(1))
 		}
@@ -297,6 +297,11 @@ func runC17Expand(payload string) string {
 	ts, err := d.terms(payload)
 	must(err)
 	t := ts[0]
+	// every second case (drawn from the payload) hands proper lists of >= 2 one-character atoms over as the
+	// Go representation of a double-quoted string: the abstract term - and so the translation - is the same
+	if len(payload)%2 == 0 {
+		t = c17Strings(t)
+	}
 	i, _ := newInterp("")
 	var res []string
 
@@ -944,7 +949,8 @@ func c17AsString(elems []engine.Term) (string, bool) {
 	var sb strings.Builder
 	for _, e := range elems {
 		a, ok := e.(engine.Atom)
-		if !ok || len(a.String()) != 1 || a.String()[0] < 'a' || a.String()[0] > 'z' {
+		// one CHARACTER (not one byte): a string may hold multi-byte characters
+		if rs := []rune(a.String()); !ok || len(rs) != 1 || !(rs[0] >= 'a' && rs[0] <= 'z' || rs[0] > 127) {
 			return "", false
 		}
 		sb.WriteString(a.String())
